@@ -1259,6 +1259,7 @@ func (s *State) evalStringInfixExpression(operator token.Type, left, right objec
 	switch {
 	case operator == token.PLUS && right.Type() == object.STRING:
 		rightVal := right.(object.String).Value
+		object.MustBeOk((len(leftVal) + len(rightVal)) / object.ObjectSize) // like * : s=s+s in a loop doubles the string.
 		return object.String{Value: leftVal + rightVal}
 	case operator == token.ASTERISK && rightIsInt:
 		n := object.SizeMul(len(leftVal), int(rightVal))
